@@ -4,58 +4,38 @@
    only one pair exists) to within one time tick of the exact value, and converting that
    time back returns the original sample id to within one sample."
 
-   All theorems are about coq/TmapModel.v, the model of /repo/src/tmap.c (jls_tmap_alloc,
-   jls_tmap_add, interp_i64, jls_tmap_sample_id_to_timestamp, jls_tmap_timestamp_to_sample_id),
-   for every number of entries >= 1, every strictly increasing id sequence with
-   non-decreasing times and every query.  Statements are written out with the model's
-   functions only; `x` = ids t = sample ids, `y` = times t = UTC ticks (2^30 per second),
-   `junk` = content of the uninitialised cell x[length] the bisection may read,
-   `phys t` = number of 8-byte cells of the heap object.
-   Arithmetic is exact (Q); the distance between binary64 and exact evaluation is the
-   PARTIAL part: C12_tmap_binary64_within_one_partial. *)
+   All theorems are about coq/TmapModel.v, the model of the CURRENT /repo/src/tmap.c
+   (jls_tmap_alloc, jls_tmap_add, interp_i64, jls_tmap_sample_id_to_timestamp,
+   jls_tmap_timestamp_to_sample_id), for every number of entries >= 1, every strictly
+   increasing id sequence with non-decreasing times and every query.  Statements are written
+   out with the model's functions only; `ids t` = sample ids, `times t` = UTC ticks (2^30 per
+   second).  Arithmetic is exact (Q); the distance between binary64 and exact evaluation is the
+   PARTIAL part: C12_tmap_binary64_within_one_partial.
+
+   The last section documents the two defects repaired in /repo (commits 4ae268d, 768bbbf) on
+   the model of the code before the repairs (TmapModel.*_old): the refutation witnesses and
+   the proof that the repairs did not change any defined result. *)
 From Coq Require Import ZArith QArith Qabs List Bool Arith.
 From JLS Require Import Generated TmapModel TmapProofs.
 Import ListNotations.
 Local Open Scope Z_scope.
 
-(* ---- the bisection: result independent of the junk cell, no over-read below capacity ---- *)
-Theorem C12_tmap_search_junk_independent : forall (junk junk' : Z) (ph : nat) (xs : list Z) (x0 : Z),
-  (length xs < ph)%nat -> search junk ph xs x0 = search junk' ph xs x0.
-Proof. exact search_junk_independent_lemma. Qed.
-Print Assumptions C12_tmap_search_junk_independent.
+(* ---- memory safety and totality, unconditional: whatever the map (sorted or not, equal
+   times or not, at capacity or not) and the query, the bisection reads only valid indices and
+   terminates, and a conversion never yields OOB_read, FP_invalid or Nonterm; the only
+   remaining fault is int64 overflow (C undefined behaviour for astronomically distant queries) ---- *)
+Theorem C12_tmap_search_total : forall (xs : list Z) (x0 : Z), (1 <= length xs)%nat ->
+  exists c, search xs x0 = Ok c /\ (c < length xs)%nat /\ (2 <= length xs -> c + 2 <= length xs)%nat.
+Proof. exact search_total. Qed.
+Print Assumptions C12_tmap_search_total.
 
-Theorem C12_tmap_junk_independent : forall (junk junk' : Z) (t : tmap) (q : Z),
-  (length (entries t) < phys t)%nat ->
-  tmap_sample_id_to_timestamp junk t q = tmap_sample_id_to_timestamp junk' t q /\
-  tmap_timestamp_to_sample_id junk t q = tmap_timestamp_to_sample_id junk' t q.
-Proof. exact tmap_junk_independent. Qed.
-Print Assumptions C12_tmap_junk_independent.
-
-Theorem C12_tmap_search_no_oob : forall (junk : Z) (ph : nat) (xs : list Z) (x0 : Z),
-  (length xs < ph)%nat ->
-  exists c, search junk ph xs x0 = Ok c /\ (c <= length xs)%nat /\ (2 <= length xs -> c + 2 <= length xs)%nat.
-Proof. exact search_no_oob_lemma. Qed.
-Print Assumptions C12_tmap_search_no_oob.
-
-Theorem C12_tmap_no_oob : forall (junk : Z) (t : tmap) (q : Z),
-  (length (entries t) < phys t)%nat ->
-  tmap_sample_id_to_timestamp junk t q <> QFault OOB_read /\
-  tmap_timestamp_to_sample_id junk t q <> QFault OOB_read.
-Proof. exact tmap_no_oob. Qed.
-Print Assumptions C12_tmap_no_oob.
-
-(* ---- the defect: with length = allocated cells the bisection reads x[length] outside the heap
-   object for every query beyond the last anchor, and only then ---- *)
-Theorem C12_tmap_oob_iff : forall (junk : Z) (t : tmap) (q : Z),
-  (forall i k, (i < k < length (ids t))%nat -> nth i (ids t) 0 < nth k (ids t) 0) ->
-  (2 <= length (entries t))%nat -> (phys t <= length (entries t))%nat ->
-  (tmap_sample_id_to_timestamp junk t q = QFault OOB_read <-> nth (length (entries t) - 1) (ids t) 0 < q).
-Proof. exact tmap_oob_iff. Qed.
-Print Assumptions C12_tmap_oob_iff.
+Theorem C12_tmap_total : forall (t : tmap) (q : Z) (f : fault),
+  tmap_sample_id_to_timestamp t q = QFault f \/ tmap_timestamp_to_sample_id t q = QFault f -> f = Int_overflow.
+Proof. exact tmap_total. Qed.
+Print Assumptions C12_tmap_total.
 
 (* every map produced by jls_tmap_alloc and any sequence of jls_tmap_add (valid, duplicate or
-   rejected adds): ids strictly increasing; length <= physical cells, with equality exactly when
-   the map holds ENTRIES_ALLOC_INIT = 1000 entries and has not grown *)
+   rejected adds): ids strictly increasing; length <= physical cells *)
 Theorem C12_tmap_reachable : forall (r : Q) (l : list (Z * Z)),
   let t := tmap_add_all (tmap_alloc r) l in
   (forall i k, (i < k < length (ids t))%nat -> nth i (ids t) 0 < nth k (ids t) 0) /\
@@ -65,81 +45,46 @@ Theorem C12_tmap_reachable : forall (r : Q) (l : list (Z * Z)),
 Proof. exact tmap_reachable. Qed.
 Print Assumptions C12_tmap_reachable.
 
-Theorem C12_tmap_oob_refuted :
-  exists (t : tmap) (q : Z),
-    t = tmap_add_all (tmap_alloc (1000 # 1))
-          (map (fun i => (Z.of_nat i * 1000, 2 ^ 58 + Z.of_nat i * 2 ^ 30)) (seq 0 (N.to_nat TMAP_ENTRIES_ALLOC_INIT))) /\
-    (forall i k, (i < k < length (ids t))%nat -> nth i (ids t) 0 < nth k (ids t) 0) /\
-    (forall i k, (i < k < length (times t))%nat -> nth i (times t) 0 < nth k (times t) 0) /\
-    length (entries t) = N.to_nat TMAP_ENTRIES_ALLOC_INIT /\
-    forall junk, tmap_sample_id_to_timestamp junk t q = QFault OOB_read /\
-                 tmap_timestamp_to_sample_id junk t (2 ^ 58 + 1000 * 2 ^ 30) = QFault OOB_read.
-Proof. exact tmap_oob_refuted. Qed.
-Print Assumptions C12_tmap_oob_refuted.
-
-(* ---- the minimal repair (bisection starts at high = length - 1; zero-width segment returns
-   y[low]) returns exactly what the present code returns wherever the present code is defined,
-   and never reads x[length]: all theorems below transfer to the repaired code ---- *)
-Theorem C12_tmap_fixed_eq : forall (junk : Z) (t : tmap) (q : Z),
-  (forall i k, (i < k < length (ids t))%nat -> nth i (ids t) 0 < nth k (ids t) 0) ->
-  (length (entries t) < phys t)%nat ->
-  tmap_sample_id_to_timestamp_fixed t q = tmap_sample_id_to_timestamp junk t q /\
-  ((forall i k, (i < k < length (times t))%nat -> nth i (times t) 0 < nth k (times t) 0) ->
-   tmap_timestamp_to_sample_id_fixed t q = tmap_timestamp_to_sample_id junk t q).
-Proof. exact tmap_fixed_eq. Qed.
-Print Assumptions C12_tmap_fixed_eq.
-
-Theorem C12_tmap_fixed_no_oob : forall (junk : Z) (t : tmap) (q : Z),
-  (forall i k, (i < k < length (ids t))%nat -> nth i (ids t) 0 < nth k (ids t) 0) ->
-  tmap_sample_id_to_timestamp_fixed t q = tmap_sample_id_to_timestamp junk (tmap_unchecked t) q /\
-  tmap_sample_id_to_timestamp_fixed t q <> QFault OOB_read.
-Proof. exact tmap_fixed_eq_unchecked. Qed.
-Print Assumptions C12_tmap_fixed_no_oob.
-
 (* ---- every stored pair is reproduced exactly, both directions ---- *)
-Theorem C12_tmap_anchor_exact : forall (junk : Z) (t : tmap) (s u : Z),
+Theorem C12_tmap_anchor_exact : forall (t : tmap) (s u : Z),
   (forall i k, (i < k < length (ids t))%nat -> nth i (ids t) 0 < nth k (ids t) 0) ->
   (forall i k, (i <= k < length (times t))%nat -> nth i (times t) 0 <= nth k (times t) 0) ->
-  (length (entries t) < phys t)%nat ->
   Forall (fun v => - (2 ^ 62 - 1) <= v <= 2 ^ 62 - 1) (ids t) ->
   Forall (fun v => - (2 ^ 62 - 1) <= v <= 2 ^ 62 - 1) (times t) ->
   (0 < rate t)%Q ->
   In (s, u) (entries t) ->
-  tmap_sample_id_to_timestamp junk t s = QVal u /\
+  tmap_sample_id_to_timestamp t s = QVal u /\
   ((forall i k, (i < k < length (times t))%nat -> nth i (times t) 0 < nth k (times t) 0) ->
-   tmap_timestamp_to_sample_id junk t u = QVal s).
+   tmap_timestamp_to_sample_id t u = QVal s).
 Proof. exact tmap_anchor_exact. Qed.
 Print Assumptions C12_tmap_anchor_exact.
 
 (* ---- non-decreasing in the query ---- *)
-Theorem C12_tmap_monotone : forall (junk : Z) (t : tmap) (q1 q2 v1 v2 : Z),
+Theorem C12_tmap_monotone : forall (t : tmap) (q1 q2 v1 v2 : Z),
   (forall i k, (i < k < length (ids t))%nat -> nth i (ids t) 0 < nth k (ids t) 0) ->
   (forall i k, (i <= k < length (times t))%nat -> nth i (times t) 0 <= nth k (times t) 0) ->
-  (length (entries t) < phys t)%nat ->
-  tmap_sample_id_to_timestamp junk t q1 = QVal v1 -> tmap_sample_id_to_timestamp junk t q2 = QVal v2 ->
+  tmap_sample_id_to_timestamp t q1 = QVal v1 -> tmap_sample_id_to_timestamp t q2 = QVal v2 ->
   q1 <= q2 -> v1 <= v2.
 Proof. exact tmap_monotone. Qed.
 Print Assumptions C12_tmap_monotone.
 
-Theorem C12_tmap_monotone_time_to_id : forall (junk : Z) (t : tmap) (q1 q2 v1 v2 : Z),
+Theorem C12_tmap_monotone_time_to_id : forall (t : tmap) (q1 q2 v1 v2 : Z),
   (forall i k, (i < k < length (ids t))%nat -> nth i (ids t) 0 < nth k (ids t) 0) ->
   (forall i k, (i < k < length (times t))%nat -> nth i (times t) 0 < nth k (times t) 0) ->
-  (length (entries t) < phys t)%nat ->
-  tmap_timestamp_to_sample_id junk t q1 = QVal v1 -> tmap_timestamp_to_sample_id junk t q2 = QVal v2 ->
+  tmap_timestamp_to_sample_id t q1 = QVal v1 -> tmap_timestamp_to_sample_id t q2 = QVal v2 ->
   q1 <= q2 -> v1 <= v2.
 Proof. exact tmap_monotone_rev. Qed.
 Print Assumptions C12_tmap_monotone_time_to_id.
 
 (* ---- between neighbouring pairs: the rounded linear interpolation, within 1/2 tick of the
    exact rational value, never outside the two anchor times; no fault ---- *)
-Theorem C12_tmap_interp_linear : forall (junk : Z) (t : tmap) (i : nat) (q : Z),
+Theorem C12_tmap_interp_linear : forall (t : tmap) (i : nat) (q : Z),
   (forall i k, (i < k < length (ids t))%nat -> nth i (ids t) 0 < nth k (ids t) 0) ->
   (forall i k, (i <= k < length (times t))%nat -> nth i (times t) 0 <= nth k (times t) 0) ->
-  (length (entries t) < phys t)%nat ->
   Forall (fun v => - (2 ^ 62 - 1) <= v <= 2 ^ 62 - 1) (ids t) ->
   Forall (fun v => - (2 ^ 62 - 1) <= v <= 2 ^ 62 - 1) (times t) ->
   (i + 1 < length (entries t))%nat -> nth i (ids t) 0 <= q <= nth (S i) (ids t) 0 ->
-  exists v, tmap_sample_id_to_timestamp junk t q = QVal v /\
+  exists v, tmap_sample_id_to_timestamp t q = QVal v /\
     v = nth i (times t) 0 + Qround_haz (inject_Z (q - nth i (ids t) 0%Z) * (inject_Z (nth (S i) (times t) 0%Z - nth i (times t) 0%Z) / inject_Z (nth (S i) (ids t) 0%Z - nth i (ids t) 0%Z)))%Q /\
     (Qabs (inject_Z v - (inject_Z (nth i (times t) 0%Z) + inject_Z (q - nth i (ids t) 0%Z) * (inject_Z (nth (S i) (times t) 0%Z - nth i (times t) 0%Z) / inject_Z (nth (S i) (ids t) 0%Z - nth i (ids t) 0%Z)))) <= 1 # 2)%Q /\
     nth i (times t) 0 <= v <= nth (S i) (times t) 0.
@@ -147,10 +92,10 @@ Proof. exact tmap_interp_linear. Qed.
 Print Assumptions C12_tmap_interp_linear.
 
 (* ---- before the first / at or after the last anchor: the first / last segment is used ---- *)
-Theorem C12_tmap_extrap_nearest_segment : forall (junk : Z) (t : tmap) (q v : Z),
+Theorem C12_tmap_extrap_nearest_segment : forall (t : tmap) (q v : Z),
   (forall i k, (i < k < length (ids t))%nat -> nth i (ids t) 0 < nth k (ids t) 0) ->
-  (length (entries t) < phys t)%nat -> (2 <= length (entries t))%nat ->
-  tmap_sample_id_to_timestamp junk t q = QVal v ->
+  (2 <= length (entries t))%nat ->
+  tmap_sample_id_to_timestamp t q = QVal v ->
   (q < nth 0 (ids t) 0 ->
      v = nth 0 (times t) 0 + Qround_haz (inject_Z (q - nth 0 (ids t) 0%Z) * (inject_Z (nth 1 (times t) 0%Z - nth 0 (times t) 0%Z) / inject_Z (nth 1 (ids t) 0%Z - nth 0 (ids t) 0%Z)))%Q) /\
   (nth (length (entries t) - 1) (ids t) 0 <= q ->
@@ -163,10 +108,9 @@ Print Assumptions C12_tmap_extrap_nearest_segment.
    than one tick from the exact value) or the segment c the bisection selects
    (x[c] <= q unless c is the first segment, q < x[c+1] unless c is the last) and at most
    1/2 tick from the exact value on that segment ---- *)
-Theorem C12_tmap_within_one_tick : forall (junk : Z) (t : tmap) (q v : Z),
+Theorem C12_tmap_within_one_tick : forall (t : tmap) (q v : Z),
   (forall i k, (i < k < length (ids t))%nat -> nth i (ids t) 0 < nth k (ids t) 0) ->
-  (length (entries t) < phys t)%nat ->
-  tmap_sample_id_to_timestamp junk t q = QVal v ->
+  tmap_sample_id_to_timestamp t q = QVal v ->
   (exists s0 u0, entries t = [(s0, u0)] /\ (0 < rate t)%Q /\
      v = u0 + Qtrunc ((inject_Z (q - s0) / rate t) * inject_Z (2 ^ 30))%Q /\
      (Qabs (inject_Z v - (inject_Z u0 + (inject_Z (q - s0) / rate t) * inject_Z (2 ^ 30))) < 1)%Q) \/
@@ -181,30 +125,16 @@ Print Assumptions C12_tmap_within_one_tick.
 
 (* ---- time -> id of (id -> time) is within one sample, when every segment has at least one
    tick per sample and the sample rate is at most 2^30 Hz (used by the single-entry rule) ---- *)
-Theorem C12_tmap_inverse_within_one_sample : forall (junk junk' : Z) (t : tmap) (q tm q' : Z),
+Theorem C12_tmap_inverse_within_one_sample : forall (t : tmap) (q tm q' : Z),
   (forall i k, (i < k < length (ids t))%nat -> nth i (ids t) 0 < nth k (ids t) 0) ->
-  (length (entries t) < phys t)%nat ->
   (forall i, (i + 1 < length (entries t))%nat ->
      nth (S i) (ids t) 0 - nth i (ids t) 0 <= nth (S i) (times t) 0 - nth i (times t) 0) ->
   (rate t <= inject_Z (2 ^ 30))%Q ->
-  tmap_sample_id_to_timestamp junk t q = QVal tm ->
-  tmap_timestamp_to_sample_id junk' t tm = QVal q' ->
+  tmap_sample_id_to_timestamp t q = QVal tm ->
+  tmap_timestamp_to_sample_id t tm = QVal q' ->
   -1 <= q' - q <= 1.
 Proof. exact tmap_inverse_within_one_sample. Qed.
 Print Assumptions C12_tmap_inverse_within_one_sample.
-
-(* ---- second defect class: non-decreasing but equal consecutive times make time -> id divide by
-   zero in double and cast NaN to int64 (undefined behaviour), even at a stored anchor ---- *)
-Theorem C12_tmap_equal_times_refuted :
-  exists (t : tmap) (s u : Z),
-    (forall i k, (i < k < length (ids t))%nat -> nth i (ids t) 0 < nth k (ids t) 0) /\
-    (forall i k, (i <= k < length (times t))%nat -> nth i (times t) 0 <= nth k (times t) 0) /\
-    (length (entries t) < phys t)%nat /\
-    In (s, u) (entries t) /\
-    tmap_sample_id_to_timestamp 0 t s = QVal u /\
-    tmap_timestamp_to_sample_id 0 t u = QFault FP_invalid.
-Proof. exact tmap_equal_times_refuted. Qed.
-Print Assumptions C12_tmap_equal_times_refuted.
 
 (* ---- PARTIAL: binary64 evaluation of dk * (dt / ds).  For any rounding function fl with
    relative error 2^-53 (the standard model of round-to-nearest binary64), the computed value
@@ -237,14 +167,24 @@ Example C12_tmap_example_hypotheses :
 Proof. exact ex_map_ok. Qed.
 Print Assumptions C12_tmap_example_hypotheses.
 
+(* concrete values of the current code: the example map; a single entry; the map holding exactly
+   ENTRIES_ALLOC_INIT entries queried beyond its last anchor (both directions: no fault);
+   two anchors with the same UTC time (the first anchor's id, no fault) *)
 Example C12_tmap_example_values :
   let t := tmap_add_all (tmap_alloc (1000 # 1)) [(0, 2 ^ 58); (1000, 2 ^ 58 + 2 ^ 30); (2500, 2 ^ 58 + 5 * 2 ^ 29 + 7)] in
   let t1 := tmap_add_all (tmap_alloc (1000 # 1)) [(5000, 2 ^ 58)] in
-  tmap_sample_id_to_timestamp 0 t 500 = QVal (2 ^ 58 + 2 ^ 29) /\
-  tmap_sample_id_to_timestamp 12345 t 1000 = QVal (2 ^ 58 + 2 ^ 30) /\
-  tmap_sample_id_to_timestamp 0 t 3000 = QVal (2 ^ 58 + 5 * 2 ^ 29 + 7 + 536870914) /\
-  tmap_timestamp_to_sample_id 0 t (2 ^ 58 + 2 ^ 29) = QVal 500 /\
-  tmap_sample_id_to_timestamp 0 t1 6000 = QVal (2 ^ 58 + 2 ^ 30).
+  let full := tmap_add_all (tmap_alloc (1000 # 1))
+          (map (fun i => (Z.of_nat i * 1000, 2 ^ 58 + Z.of_nat i * 2 ^ 30)) (seq 0 (N.to_nat TMAP_ENTRIES_ALLOC_INIT))) in
+  let eqt := tmap_add_all (tmap_alloc (1000 # 1)) [(0, 2 ^ 40); (1000, 2 ^ 40)] in
+  tmap_sample_id_to_timestamp t 500 = QVal (2 ^ 58 + 2 ^ 29) /\
+  tmap_sample_id_to_timestamp t 1000 = QVal (2 ^ 58 + 2 ^ 30) /\
+  tmap_sample_id_to_timestamp t 3000 = QVal (2 ^ 58 + 5 * 2 ^ 29 + 7 + 536870914) /\
+  tmap_timestamp_to_sample_id t (2 ^ 58 + 2 ^ 29) = QVal 500 /\
+  tmap_sample_id_to_timestamp t1 6000 = QVal (2 ^ 58 + 2 ^ 30) /\
+  tmap_sample_id_to_timestamp full 999001 = QVal (2 ^ 58 + 999 * 2 ^ 30 + 1073742) /\
+  tmap_timestamp_to_sample_id full (2 ^ 58 + 1000 * 2 ^ 30) = QVal 1000000 /\
+  tmap_timestamp_to_sample_id eqt (2 ^ 40) = QVal 0 /\
+  tmap_timestamp_to_sample_id eqt (2 ^ 40 + 5) = QVal 0.
 Proof. exact ex_map_values. Qed.
 Print Assumptions C12_tmap_example_values.
 
@@ -252,3 +192,62 @@ Example C12_tmap_binary64_hypothesis_satisfiable :
   forall x : Q, (Qabs ((fun y => y) x - x) <= Qabs x * (1 # 2 ^ 53))%Q.
 Proof. exact c_binary64_hypothesis_satisfiable. Qed.
 Print Assumptions C12_tmap_binary64_hypothesis_satisfiable.
+
+(* ====================================================================================== *)
+(* Documentation of the two defects repaired in /repo, on the model of the code BEFORE the
+   repairs (TmapModel.*_old; `junk` = content of the uninitialised cell x[length],
+   `phys t` = 8-byte cells of the heap object).                                            *)
+(* ====================================================================================== *)
+
+(* old defect 1 (fixed by 4ae268d): with length = allocated cells the bisection read x[length]
+   outside the heap object for every query beyond the last anchor, and only then *)
+Theorem C12_tmap_old_oob_refuted :
+  exists (t : tmap) (q : Z),
+    t = tmap_add_all (tmap_alloc (1000 # 1))
+          (map (fun i => (Z.of_nat i * 1000, 2 ^ 58 + Z.of_nat i * 2 ^ 30)) (seq 0 (N.to_nat TMAP_ENTRIES_ALLOC_INIT))) /\
+    (forall i k, (i < k < length (ids t))%nat -> nth i (ids t) 0 < nth k (ids t) 0) /\
+    (forall i k, (i < k < length (times t))%nat -> nth i (times t) 0 < nth k (times t) 0) /\
+    length (entries t) = N.to_nat TMAP_ENTRIES_ALLOC_INIT /\
+    forall junk, tmap_sample_id_to_timestamp_old junk t q = QFault OOB_read /\
+                 tmap_timestamp_to_sample_id_old junk t (2 ^ 58 + 1000 * 2 ^ 30) = QFault OOB_read.
+Proof. exact tmap_old_oob_refuted. Qed.
+Print Assumptions C12_tmap_old_oob_refuted.
+
+Theorem C12_tmap_old_oob_iff : forall (junk : Z) (t : tmap) (q : Z),
+  (forall i k, (i < k < length (ids t))%nat -> nth i (ids t) 0 < nth k (ids t) 0) ->
+  (2 <= length (entries t))%nat -> (phys t <= length (entries t))%nat ->
+  (tmap_sample_id_to_timestamp_old junk t q = QFault OOB_read <-> nth (length (entries t) - 1) (ids t) 0 < q).
+Proof. exact tmap_old_oob_iff. Qed.
+Print Assumptions C12_tmap_old_oob_iff.
+
+(* below capacity the old result did not depend on the uninitialised cell it read *)
+Theorem C12_tmap_old_junk_independent : forall (junk junk' : Z) (t : tmap) (q : Z),
+  (length (entries t) < phys t)%nat ->
+  tmap_sample_id_to_timestamp_old junk t q = tmap_sample_id_to_timestamp_old junk' t q /\
+  tmap_timestamp_to_sample_id_old junk t q = tmap_timestamp_to_sample_id_old junk' t q.
+Proof. exact tmap_old_junk_independent. Qed.
+Print Assumptions C12_tmap_old_junk_independent.
+
+(* old defect 2 (fixed by 768bbbf): non-decreasing but equal consecutive times made time -> id
+   divide by zero in double and cast NaN to int64 (undefined behaviour), even at a stored anchor *)
+Theorem C12_tmap_old_equal_times_refuted :
+  exists (t : tmap) (s u : Z),
+    (forall i k, (i < k < length (ids t))%nat -> nth i (ids t) 0 < nth k (ids t) 0) /\
+    (forall i k, (i <= k < length (times t))%nat -> nth i (times t) 0 <= nth k (times t) 0) /\
+    (length (entries t) < phys t)%nat /\
+    In (s, u) (entries t) /\
+    tmap_sample_id_to_timestamp_old 0 t s = QVal u /\
+    tmap_timestamp_to_sample_id_old 0 t u = QFault FP_invalid.
+Proof. exact tmap_old_equal_times_refuted. Qed.
+Print Assumptions C12_tmap_old_equal_times_refuted.
+
+(* the repairs changed no defined result: the current code returns what the old code returned
+   whenever the old code could not read outside its heap object (strictly increasing search keys) *)
+Theorem C12_tmap_eq_old : forall (junk : Z) (t : tmap) (q : Z),
+  (length (entries t) < phys t)%nat ->
+  ((forall i k, (i < k < length (ids t))%nat -> nth i (ids t) 0 < nth k (ids t) 0) ->
+   tmap_sample_id_to_timestamp t q = tmap_sample_id_to_timestamp_old junk t q) /\
+  ((forall i k, (i < k < length (times t))%nat -> nth i (times t) 0 < nth k (times t) 0) ->
+   tmap_timestamp_to_sample_id t q = tmap_timestamp_to_sample_id_old junk t q).
+Proof. exact tmap_eq_old. Qed.
+Print Assumptions C12_tmap_eq_old.
